@@ -14,7 +14,8 @@ class MicrosecAdapter(Adapter):
         return datetime.datetime.fromtimestamp(obj[0] + obj[1] / 1000000.)
     def _encode(self, obj, context, path):
         epoch = datetime.datetime.utcfromtimestamp(0)
-        return [int((obj-epoch).total_seconds()), 0]
+        delta = obj - epoch
+        return [delta.days * 86400 + delta.seconds, delta.microseconds]
 
         # offset = time.mktime(*obj.timetuple())
         # sec = int(offset)
